@@ -351,6 +351,11 @@ def replay(ck: core.Check, doc) -> bool:
         desc = N.describe(spec)
         real = N.run_case(spec)
         fails = _node_oracle(spec, desc, real)
+        if not fails:
+            # the property quantifies over fault SEQUENCES: the same fault a second time in the same process
+            # (a failure observed in a run after earlier faults - e.g. code that remembers a failed operator)
+            real = N.run_case(spec)
+            fails = [(k, w + " [second occurrence of the fault in the same process]") for k, w in _node_oracle(spec, desc, real)]
     else:
         _init_worker()
         r = _prog_task(case)
